@@ -26,7 +26,8 @@ CANCELLERS = ("EDF", "FIFO", "Clockwork", "TetriSched_CPLEX")
 def tight_cases(policies):
     @st.composite
     def s(draw):
-        case = draw(SC.call_cases(policies=policies, max_tasks=4, tight_deadlines=True, max_runtime=6, batching=False))
+        flat = draw(st.booleans())
+        case = draw(SC.call_cases(policies=policies, max_tasks=5 if flat else 4, tight_deadlines=True, max_runtime=9 if flat else 6, batching=False, flat=flat))
         pol = case["policy"]
         pol["enforce_deadlines"] = True
         if pol["name"] == "ILP":
